@@ -62,6 +62,12 @@ CHECKS["C15"] = dict(
   text="Every mutation operator (delete key, null, type swaps, empty object/array, unsupported type/format, dangling / wrong-section / cyclic $ref, content parameters, cookie parameters, partial / undeclared / slash-less path templates, non-string server-variable defaults) is applied at every site of two carrier specs (quick: all keyed operators and a seeded third of the generic ones; thorough: all); loader-rejected mutants are skipped; each remaining mutant is generated under recover() in a worker process (a dead or hung worker is a crash), a sample and all crashing mutants also through the CLI; TLC applies the protocol. Absence of panics is observed, not modelled (exploration).",
   note="'Located' = the message contains a specific name on the pointer path to the fault (or, for faults inside components, the path key where the component is used). Two open findings (unlocated template errors, self-referencing schema overflows the stack) carry TLA+ selectors; three defects were repaired.")
 
+CHECKS["C12"] = dict(
+  level="exploration", design="§4 C12, §12, spec/Determinism.tla, spec/Trace_Determinism.tla",
+  technique="TLA+ site table (sorted / ranged x contribution) checked over all permutations by TLC (MC_Determinism); map-fat and corpus specs generated repeatedly in one process and in separate processes; equality of results and file hashes judged by TLC (Trace_Determinism)",
+  text="Design check: for every site of the site table and every permutation of 4 keys the emitted sequence is schedule independent (it is not for the pinned tree's three ranged sites, cfg v0). Code: a map-fat spec with >= 4 entries in every map-typed construct, the kitchen and carrier specs and a seeded sample of matrix cells are each generated 24 (thorough 96) times across separate processes; every run of one input must give the same result (or the same error text) and identical sha256 per file. Schedules of Go's map iteration are sampled, not enumerated (exploration).",
+  note="With k >= 4 entries and a first-key-wins or whole-order site, a pair of runs differs with probability >= 3/4, so 24 runs miss an influencing site with probability <= 4^-23. The site table is a model; unlisted ranged sites would still be caught by the hash comparison if the corpus exercises them.")
+
 NOT_YET = {}
 
 def main():
